@@ -103,8 +103,13 @@ def rich_ruleset(rng, path):
     base = list(zip(structs, ps))
     omen_prob = rng.choice([[(1, 0.4), (2, 0.2), (3, 0.1)], [(1, 0.26), (2, 0.25), (3, 0.0), (4, 0.0)],
                             [(2, 0.3), (1, 0.1)], [(1, 0.3), (2, 0.3), (3, 0.1)]])
+    # OMEN models whose most probable initial n-gram is not at level 0 and whose levels span several lengths
+    omen_model = rng.choice([None,
+        dict(ngram=2, alphabet=['a', 'b'], ip={'a': 1, 'b': 2}, cp={'aa': 0, 'ab': 1, 'ba': 0, 'bb': 1}, ep={'a': 0, 'b': 0}, ln=[10, 0, 0, 1]),
+        dict(ngram=3, alphabet=['a', 'b'], ip={'ab': 2, 'ba': 1, 'aa': 3}, cp={'aba': 0, 'bab': 0, 'baa': 1, 'aab': 0, 'aaa': 1, 'abb': 2},
+             ep={'ab': 0}, ln=[10, 10, 0, 1, 0])])
     rulesets.write_ruleset(path, terminals, base, prince=[(n, 0.5 / (i + 1)) for i, n in enumerate(names)],
-                           omen_prob=omen_prob, omen_keyspace=[(l, 1) for l, _ in omen_prob])
+                           omen_prob=omen_prob, omen_keyspace=[(l, 1) for l, _ in omen_prob], omen=omen_model)
     return {'terminals': terminals, 'base': base, 'omen_prob': omen_prob}
 
 
@@ -130,6 +135,32 @@ def tie_group_ruleset(rng, path):
     prince = [('A3', 0.5), ('A4', 0.3), ('D2', 0.2)]
     rulesets.write_ruleset(path, terminals, base, prince=prince)
     return {'terminals': terminals, 'base': base, 'prince': prince, 'kind': 'tie groups'}
+
+
+def dyadic_prince_ruleset(rng, path):
+    """power-of-two probabilities: word group x mask group products tie exactly across the two slots of an alpha
+    entry (P(A[i]) * P(C[j+1]) == P(A[i+1]) * P(C[j])), the situation the adoption rule's tie-break exists for"""
+    words = ['pass', 'word', 'love', 'star', 'moon', 'blue', 'fire', 'king']
+    rng.shuffle(words)
+    k = rng.randint(3, 5)
+    a4 = []
+    p = 0.5
+    for i in range(k):
+        for w in words[i * 1:(i * 1) + 1]:
+            a4.append((w, p))
+        p /= 2
+    masks = ['LLLL', 'ULLL', 'UUUU', 'LLLU']
+    c4 = []
+    p = 0.5
+    for m in masks[:rng.randint(2, 4)]:
+        c4.append((m, p))
+        p /= 2
+    terminals = {'A4': a4, 'C4': c4, 'D2': [('12', 0.5), ('99', 0.25), ('07', 0.25)], 'A2': [('ab', 0.5), ('cd', 0.5)],
+                 'C2': [('LL', 0.5), ('UL', 0.25), ('UU', 0.25)]}
+    base = [('A4', 0.5), ('A2D2', 0.25), ('D2', 0.25)]
+    prince = [('A4', 0.5), ('A2', 0.25), ('D2', 0.25)]
+    rulesets.write_ruleset(path, terminals, base, prince=prince)
+    return {'terminals': terminals, 'base': base, 'prince': prince, 'kind': 'dyadic prince'}
 
 
 # --------------------------------------------------------------------------
